@@ -87,6 +87,9 @@ func (ex *Exec) specBool(sc *specCtx, c *Clause) *T {
 }
 
 func (ex *Exec) specErr(sc *specCtx, format string, args ...any) {
+	if r := sc.root(); r.lenient && r.missing {
+		return // the clause is already known not to apply at this exit
+	}
 	ex.errs = append(ex.errs, sc.where+": spec: "+fmt.Sprintf(format, args...))
 }
 
@@ -310,6 +313,9 @@ func (ex *Exec) specIdent(sc *specCtx, e *ast.Ident) (Val, bool) {
 	if v, ok := sc.vars[name]; ok {
 		return v, true
 	}
+	if t, ok := sc.st.env["$cap."+name]; ok {
+		return Val{t, ex.keyType["$cap."+name]}, true
+	}
 	if sv, ok := sc.stateVars[name]; ok {
 		t := ex.get(sc.st, sv.key)
 		if t == nil {
@@ -339,6 +345,14 @@ func (ex *Exec) specIdent(sc *specCtx, e *ast.Ident) (Val, bool) {
 			return Val{ex.globalConst(o), o.Type()}, true
 		case *types.Const:
 			return Val{constToTerm(o.Val(), o.Type(), ex), o.Type()}, true
+		}
+	}
+	if sc.lenient && ex.fc != nil {
+		for _, cp := range ex.fc.Captures {
+			if cp.Name == name {
+				sc.root().missing = true
+				return Val{I(0), typInt}, false
+			}
 		}
 	}
 	ex.specErr(sc, "unknown identifier %s", name)
@@ -383,6 +397,10 @@ func (ex *Exec) specLoadVar(sc *specCtx, v *types.Var) (Val, bool) {
 		return Val{Select(ex.get(sc.st, ex.ptrHeapKey(v.Type())), ref), v.Type()}, true
 	}
 	t := sc.st.env[key]
+	if t == nil && sc.root() != sc {
+		// old(...)/entry(...) of an expression naming a local that did not exist yet: the local's current value, the old heap
+		t = sc.root().st.env[key]
+	}
 	if t == nil {
 		if pv, ok := ex.paramVals[v.Name()]; ok && len(ex.code) <= 1 {
 			return pv, true
